@@ -13,6 +13,10 @@ from . import ast as A
 F32_MAX = 3.4028234663852886e+38
 
 # error classes -> the trap code the virtual machine must report
+# value of ERR for each error class (the trap code's number)
+ERR_CODE = {'OVERFLOW': 10, 'DIV0': 14, 'SUBSCRIPT': 11, 'ILLEGAL_CALL': 9,
+            'OUT_OF_DATA': 3, 'DATA_TYPE': 3, 'DEVICE': 3}
+
 TRAP_OF = {
     'OVERFLOW': 'INVALID_CELL_VALUE',
     'DIV0': 'DIVISION_BY_ZERO',
@@ -56,6 +60,10 @@ class _ExitLoop(Exception):
 
 class _ExitProc(Exception):
     pass
+
+
+class _SkipStmt(Exception):
+    """RESUME NEXT after an error in the header of the current statement."""
 
 
 class _Resume(Exception):
@@ -698,7 +706,75 @@ class Interp:
                     raise
                 i = k
                 continue
+            except QError as err:
+                # statement-level error handling (ON ERROR ...): only for
+                # simple statements of the main program; an error raised
+                # inside a called procedure surfaces at the calling
+                # module-level statement
+                if self.handler is None or self.in_handler or \
+                        self.frame is not self.main:
+                    raise
+                if not s.simple:
+                    raise Unsupported('error in a block header while a '
+                                      'handler is armed')
+                in_proc = err.stmt is not None and err.stmt is not s and \
+                    getattr(err, 'depth', 0) > 0
+                self.err_cls = err.cls
+                self.err_code = ERR_CODE[err.cls]
+                self.used_features.add('handled_error')
+                if self.handler == 'next':
+                    if in_proc:
+                        raise Unsupported('RESUME NEXT for an error inside '
+                                          'a procedure')
+                    i += 1
+                    continue
+                action = self.run_handler()
+                if in_proc:
+                    raise Unsupported('RESUME for an error inside a '
+                                      'procedure')
+                if action:          # RESUME NEXT
+                    i += 1
+                continue
             i += 1
+
+    def eval_header(self, e):
+        """Evaluates the condition of a single-line IF or of LOOP WHILE /
+        UNTIL under the statement-level error semantics: RESUME evaluates it
+        again, RESUME NEXT leaves the statement (_SkipStmt)."""
+        while True:
+            try:
+                return self.eval(e)
+            except QError as err:
+                if self.handler is None or self.in_handler or \
+                        self.frame is not self.main or \
+                        getattr(err, 'depth', 0) > 0:
+                    raise
+                self.err_cls = err.cls
+                self.err_code = ERR_CODE[err.cls]
+                self.used_features.add('handled_error')
+                self.used_features.add('handled_error_in_header')
+                if self.handler == 'next' or self.run_handler():
+                    raise _SkipStmt()
+
+    def run_handler(self):
+        """Executes the handler until RESUME -> True for RESUME NEXT."""
+        k = self.top_labels.get(self.handler)
+        if k is None:
+            raise Unsupported('handler label not at module level')
+        self.in_handler = True
+        saved = self.cur_stmt
+        try:
+            try:
+                self.exec_body(self.top, k)
+            except _Resume as r:
+                self.cur_stmt = saved
+                return r.next
+            except QError:
+                # an error inside the handler is fatal
+                raise
+        finally:
+            self.in_handler = False
+        raise _End()
 
     def exec_stmt(self, s):
         self.steps += 1
@@ -715,6 +791,7 @@ class Interp:
         except QError as err:
             if err.stmt is None:
                 err.stmt = self.cur_stmt if s.simple else s
+                err.depth = self.frame.depth
             raise
 
     def x_LabelDef(self, s):
@@ -770,7 +847,11 @@ class Interp:
 
     def x_IfLine(self, s):
         self.cur_stmt = s
-        if self.truth(self.eval(s.cond)):
+        try:
+            c = self.eval_header(s.cond)
+        except _SkipStmt:
+            return
+        if self.truth(c):
             self.exec_body(s.then)
         elif s.els is not None:
             self.exec_body(s.els)
@@ -841,11 +922,13 @@ class Interp:
                 self.steps += 1
                 if self.steps > self.max_steps:
                     raise Budget()
-                if s.kind == 'loop_while' and \
-                        not self.truth(self.eval(s.cond)):
-                    break
-                if s.kind == 'loop_until' and self.truth(self.eval(s.cond)):
-                    break
+                if s.kind in ('loop_while', 'loop_until'):
+                    try:
+                        c = self.truth(self.eval_header(s.cond))
+                    except _SkipStmt:
+                        break
+                    if c == (s.kind == 'loop_until'):
+                        break
         except _ExitLoop as x:
             if x.what != 'DO':
                 raise
@@ -1027,6 +1110,8 @@ class Interp:
     def x_OnError(self, s):
         if self.in_handler:
             raise Unsupported('ON ERROR inside a handler')
+        if self.frame is not self.main:
+            raise Unsupported('ON ERROR inside a procedure')
         self.handler = None if s.target == 0 else s.target
         self.used_features.add('onerror')
 
